@@ -68,17 +68,27 @@ func (vc *VC) envHere(st *state) *specEnv {
 	// that leave the loop (error exits) and are therefore not part of the natural loop
 	cur := vc.outerBlock() // inside an inlined helper: the block of the call site
 	for _, li := range vc.loopList {
-		if (li.header == cur || li.header.Dominates(cur)) && len(li.phiVals) > 0 && !li.blocks[cur] {
+		c := vc.blockIn(li.header.Parent())
+		if c == nil {
+			continue
+		}
+		if (li.header == c || li.header.Dominates(c)) && len(li.phiVals) > 0 && !li.blocks[c] {
 			vc.bindLoopVars(env, li, li.phiVals)
 		}
 	}
 	for _, li := range vc.loopList {
-		if li.blocks[cur] && len(li.phiVals) > 0 {
+		c := vc.blockIn(li.header.Parent())
+		if c != nil && li.blocks[c] && len(li.phiVals) > 0 {
 			vc.bindLoopVars(env, li, li.phiVals)
 		}
 	}
 	if li := vc.loopOf(cur); li != nil && len(li.phiVals) > 0 {
 		vc.bindLoopVars(env, li, li.phiVals)
+	}
+	if vc.cur != nil && vc.cur != cur {
+		if li := vc.loopOf(vc.cur); li != nil && len(li.phiVals) > 0 {
+			vc.bindLoopVars(env, li, li.phiVals)
+		}
 	}
 	return env
 }
